@@ -174,6 +174,10 @@ def random_history(rng, nops, nvals):
     hs = ["h1", "h2", "h3"]
     bound = set()
     ops = []
+    # upper bound of the length of the storage every handle refers to (aliases share the cell): histories whose
+    # lists double over and over (c = a ++ a, a thousand times) are memory tests, not semantics tests
+    cell = {}
+    CAP = 4000
     for _ in range(nops):
         cand = []
         unb = [h for h in hs if h not in bound]
@@ -189,12 +193,18 @@ def random_history(rng, nops, nvals):
         big = rng.choice([0, 1, 2, 3, 5, 7, 8, 9, 15, 16, 17, 40, 100, 500, 1030, HUGE])
         if op == "new":
             h = rng.choice(unb or hs)
-            ops.append({"op": "new", "h": h}); bound.add(h)
+            ops.append({"op": "new", "h": h}); bound.add(h); cell[h] = [0]
         elif op == "from_vec":
             h = rng.choice(unb or hs)
-            ops.append({"op": "from_vec", "h": h, "s": [v, rng.randrange(nvals)]}); bound.add(h)
+            ops.append({"op": "from_vec", "h": h, "s": [v, rng.randrange(nvals)]}); bound.add(h); cell[h] = [2]
         elif op in ("push", "contains", "index"):
-            ops.append({"op": op, "h": rng.choice(b), "v": v})
+            h = rng.choice(b)
+            if op == "push":
+                if cell[h][0] >= CAP:
+                    op = "contains"
+                else:
+                    cell[h][0] += 1
+            ops.append({"op": op, "h": h, "v": v})
         elif op == "get":
             ops.append({"op": op, "h": rng.choice(b), "i": big})
         elif op in ("len", "is_empty", "capacity", "to_vec", "iter"):
@@ -203,16 +213,26 @@ def random_history(rng, nops, nvals):
             ops.append({"op": op, "h": rng.choice(b), "i": big, "j": rng.choice([0, 1, 2, 6, 7, 8, 20, HUGE])})
         elif op == "concat":
             c = rng.choice(hs)
-            ops.append({"op": op, "a": rng.choice(b), "b": rng.choice(b), "c": c}); bound.add(c)
+            a_, b_ = rng.choice(b), rng.choice(b)
+            if cell[a_][0] + cell[b_][0] > CAP:
+                ops.append({"op": "eq", "a": a_, "b": b_})
+                continue
+            ops.append({"op": op, "a": a_, "b": b_, "c": c}); bound.add(c)
+            cell[c] = [cell[a_][0] + cell[b_][0]]
         elif op == "eq":
             ops.append({"op": op, "a": rng.choice(b), "b": rng.choice(b)})
         elif op == "iter_push":
-            ops.append({"op": op, "h": rng.choice(b), "n": rng.choice([0, 3, 8, 9, 16, 17, 33, 64, 65, 130, 260, 600, 1100])})
+            h = rng.choice(b)
+            n = rng.choice([0, 3, 8, 9, 16, 17, 33, 64, 65, 130, 260, 600, 1100])
+            if cell[h][0] + n > CAP:
+                n = 0
+            cell[h][0] += n
+            ops.append({"op": op, "h": h, "n": n})
         elif op == "clone":
             a = rng.choice(b)
             o = [h for h in hs if h != a]
             bb = rng.choice(o)
-            ops.append({"op": op, "a": a, "b": bb}); bound.add(bb)
+            ops.append({"op": op, "a": a, "b": bb}); bound.add(bb); cell[bb] = cell[a]
         elif op == "drop":
             h = rng.choice(b)
             ops.append({"op": op, "h": h}); bound.discard(h)
